@@ -6,6 +6,7 @@ leaves in the working buffer, the fold of `Jiggler` calls, and the composition f
 import FontVerif.Model.GvarApply
 import FontVerif.Lemmas.GvarData
 import FontVerif.Lemmas.GvarApplyArith
+import FontVerif.Lemmas.Iup
 set_option linter.unusedVariables false
 namespace FontVerif.GvarApply
 open FontVerif FontVerif.PackedDeltas FontVerif.GvarData
@@ -395,5 +396,286 @@ theorem foldl_applyCall_interp (pts : List Iup.Pt) (has : List Bool) (refs : Nat
     · have hck' : covers c k = false := by simpa using hck
       simp only [hck', Bool.false_eq_true, if_false, Bool.or_false]
       exact ihv k hk
+
+/-! ### shape of the calls for one contour -/
+
+open FontVerif.Iup in
+/-- the calls `interpolate_deltas` makes for a contour at points `0 ..= n-1`: none; or one `shift`
+around the single explicit point; or only `interpolate` calls whose references are explicit -/
+theorem readerContourCalls_shape (has : List Bool) (n np : Nat) (hn : 0 < n) (hnp : n ≤ np) :
+    ∃ calls p', readerContourCalls has np 0 (n - 1) = some (calls, p') ∧
+      (calls = [] ∨
+       (∃ r, calls = [⟨0, n - 1, r, r, true⟩] ∧ r < n ∧ H has r = true) ∨
+       (∀ c ∈ calls, c.shift = false ∧ H has c.r1 = true ∧ H has c.r2 = true ∧ c.r1 < n ∧ c.r2 < n)) := by
+  have hl : n - 1 < np := by omega
+  unfold readerContourCalls
+  obtain ⟨fd, e1, s1, s2, s3, s4⟩ := scanFirst_spec has np (n - 1) hl (n - 1 + 2 - 0) 0 (by omega) (by omega)
+  rw [e1]
+  simp only []
+  by_cases hfd : fd > n - 1
+  · simp only [hfd, if_true]
+    exact ⟨[], fd, rfl, Or.inl rfl⟩
+  · simp only [hfd, if_false]
+    have hfdn : fd < n := by omega
+    have hfdt : H has fd = true := s4 (by omega)
+    obtain ⟨news, cur', e2, g1, g2, g3, g4, g5, g6⟩ :=
+      innerLoop_spec has np (n - 1) hl (n - 1 + 1 - fd) (fd + 1) fd [] (by omega) (by omega) (by omega) hfdt
+        (fun j a b => by omega)
+    rw [e2]
+    simp only [List.nil_append]
+    by_cases hsingle : cur' = fd
+    · subst hsingle
+      simp only [if_true]
+      have hnews : news = [] := by
+        cases news with
+        | nil => rfl
+        | cons c cs =>
+          obtain ⟨⟨_, ⟨_, _, m4, _⟩, _, _⟩, m8, m9⟩ := g5 c (List.mem_cons_self ..)
+          omega
+      subst hnews
+      exact ⟨_, _, rfl, Or.inr (Or.inl ⟨cur', by simp, hfdn, hfdt⟩)⟩
+    · simp only [hsingle, if_false]
+      refine ⟨_, _, rfl, Or.inr (Or.inr ?_)⟩
+      intro c hc
+      simp only [List.mem_append, List.mem_singleton] at hc
+      rcases hc with (hc | hc) | hc
+      · obtain ⟨⟨m1, ⟨m2, m3, m4, _⟩, _, _⟩, m8, m9⟩ := g5 c hc
+        exact ⟨m1, m2, m3, by omega, by omega⟩
+      · subst hc; exact ⟨rfl, g1, hfdt, by simp only; omega, hfdn⟩
+      · by_cases hfd0 : fd > 0
+        · simp only [hfd0, if_true, List.mem_singleton] at hc
+          subst hc; exact ⟨rfl, g1, hfdt, by simp only; omega, hfdn⟩
+        · simp only [hfd0, if_false, List.not_mem_nil] at hc
+
+/-! ### one contour: the 16.16 working points after `interpolate_deltas` against the specification -/
+
+open FontVerif.Iup in
+/-- working points: the glyph's points in 16.16 plus the (already scaled) explicit deltas -/
+def workOf (points ex : List Iup.Pt) : List Iup.Pt :=
+  (List.range points.length).map fun k =>
+    ((getP points k).1 * 65536 + (getP ex k).1, (getP points k).2 * 65536 + (getP ex k).2)
+
+open FontVerif.Iup in
+theorem getP_take (l : List Iup.Pt) (n k : Nat) (hk : k < n) : getP (l.take n) k = getP l k := by
+  unfold getP
+  rw [List.getD_eq_getElem?_getD, List.getD_eq_getElem?_getD, List.getElem?_take_of_lt hk]
+
+open FontVerif.Iup in
+theorem getP_workOf (points ex : List Iup.Pt) (k : Nat) (hk : k < points.length) :
+    getP (workOf points ex) k =
+      ((getP points k).1 * 65536 + (getP ex k).1, (getP points k).2 * 65536 + (getP ex k).2) := by
+  unfold workOf; rw [getP_map_range _ _ k hk]
+
+open FontVerif.Iup in
+theorem applyCall_shift_getP (pts out : List Iup.Pt) (lo hi r : Nat) (hlh : lo ≤ hi) (k : Nat)
+    (hk : k < out.length) :
+    getP (applyCall pts out ⟨lo, hi, r, r, true⟩) k =
+      if lo ≤ k ∧ k ≤ hi ∧ k ≠ r ∧
+          ¬ (fxSub (getP out r).1 (fxFromI32 (getP pts r).1) = 0 ∧ fxSub (getP out r).2 (fxFromI32 (getP pts r).2) = 0)
+      then (fxAdd (getP out k).1 (fxSub (getP out r).1 (fxFromI32 (getP pts r).1)),
+            fxAdd (getP out k).2 (fxSub (getP out r).2 (fxFromI32 (getP pts r).2)))
+      else getP out k := by
+  unfold applyCall
+  have h1 : ¬ hi < lo := by omega
+  simp only [h1, if_false, if_true]
+  by_cases hz : fxSub (getP out r).1 (fxFromI32 (getP pts r).1) = 0 ∧ fxSub (getP out r).2 (fxFromI32 (getP pts r).2) = 0
+  · simp [hz]
+  · simp only [hz, if_false, not_false_eq_true, and_true]
+    rw [getP_map_range _ _ k hk]
+
+open FontVerif.Iup in
+/-- **one contour + phantom points.**  `points` = the `n` contour points followed by the four
+phantom points, `ex` = the explicit deltas in 16.16 units (zero where `has` is false).  After
+`interpolate_deltas` every contour point's working value, minus the point itself, is within
+`(den - 1) / 2` units of 2⁻¹⁶ of the specification's inferred delta `num / den` (`inferSpec`, with
+`den` = 1 for explicit / shifted / clamped points and the coordinate distance of the two reference
+points for interpolated ones), and the phantom points are untouched. -/
+theorem contour_contribution (n : Nat) (hn : 0 < n) (points ex : List Iup.Pt) (has : List Bool)
+    (hpl : points.length = n + 4) (hhl : has.length = n + 4)
+    (M E : Int) (hM : 0 ≤ M ∧ M ≤ 16383) (hE : 0 ≤ E) (hfit : 131072 * M + 4 * E + 65536 ≤ 2147483647)
+    (hpts : ∀ k, (-M ≤ (getP points k).1 ∧ (getP points k).1 ≤ M) ∧ (-M ≤ (getP points k).2 ∧ (getP points k).2 ≤ M))
+    (hex : ∀ k, (-E ≤ (getP ex k).1 ∧ (getP ex k).1 ≤ E) ∧ (-E ≤ (getP ex k).2 ∧ (getP ex k).2 ≤ E))
+    (hex0 : ∀ k, has.getD k false = false → getP ex k = (0, 0)) :
+    ∃ out, readerInterpolate points has [n - 1] (workOf points ex) = some out ∧ out.length = n + 4 ∧
+      (∀ k, k < n →
+        0 < (inferSpec points (ex.take n) has k).1.2 ∧ 0 < (inferSpec points (ex.take n) has k).2.2 ∧
+        2 * ((inferSpec points (ex.take n) has k).1.2 * ((getP out k).1 - (getP points k).1 * 65536)
+              - (inferSpec points (ex.take n) has k).1.1)
+          ≤ (inferSpec points (ex.take n) has k).1.2 * ((inferSpec points (ex.take n) has k).1.2 - 1) ∧
+        2 * ((inferSpec points (ex.take n) has k).1.1
+              - (inferSpec points (ex.take n) has k).1.2 * ((getP out k).1 - (getP points k).1 * 65536))
+          ≤ (inferSpec points (ex.take n) has k).1.2 * ((inferSpec points (ex.take n) has k).1.2 - 1) ∧
+        2 * ((inferSpec points (ex.take n) has k).2.2 * ((getP out k).2 - (getP points k).2 * 65536)
+              - (inferSpec points (ex.take n) has k).2.1)
+          ≤ (inferSpec points (ex.take n) has k).2.2 * ((inferSpec points (ex.take n) has k).2.2 - 1) ∧
+        2 * ((inferSpec points (ex.take n) has k).2.1
+              - (inferSpec points (ex.take n) has k).2.2 * ((getP out k).2 - (getP points k).2 * 65536))
+          ≤ (inferSpec points (ex.take n) has k).2.2 * ((inferSpec points (ex.take n) has k).2.2 - 1)) ∧
+      (∀ k, n ≤ k → k < n + 4 → getP out k = getP (workOf points ex) k) := by
+  have hwl : (workOf points ex).length = n + 4 := by simp [workOf, hpl]
+  have hdsl : (ex.take n).length = n ∨ (ex.take n).length < n := by
+    simp only [List.length_take]; omega
+  obtain ⟨calls, p', ecalls, hA, hB, hC⟩ := readerContourCalls_spec has n (n + 4) hn (by omega)
+  obtain ⟨calls', p'', ecalls', hshape⟩ := readerContourCalls_shape has n (n + 4) hn (by omega)
+  rw [ecalls] at ecalls'
+  simp only [Option.some.injEq, Prod.mk.injEq] at ecalls'
+  obtain ⟨rfl, rfl⟩ := ecalls'
+  have hri : readerInterpolate points has [n - 1] (workOf points ex)
+      = some (calls.foldl (applyCall points) (workOf points ex)) := by
+    simp [readerInterpolate, readerCalls, hpl, ecalls]
+  rw [hri]
+  -- a point's working value when it is explicit / untouched
+  have hw : ∀ k, k < n + 4 → getP (workOf points ex) k =
+      ((getP points k).1 * 65536 + (getP ex k).1, (getP points k).2 * 65536 + (getP ex k).2) :=
+    fun k hk => getP_workOf points ex k (by omega)
+  -- the facts for an explicit point
+  have hexplicit : ∀ k, k < n → has.getD k false = true → ∀ (o : Iup.Pt), o = getP (workOf points ex) k →
+      0 < (inferSpec points (ex.take n) has k).1.2 ∧ 0 < (inferSpec points (ex.take n) has k).2.2 ∧
+      2 * ((inferSpec points (ex.take n) has k).1.2 * (o.1 - (getP points k).1 * 65536)
+            - (inferSpec points (ex.take n) has k).1.1)
+        ≤ (inferSpec points (ex.take n) has k).1.2 * ((inferSpec points (ex.take n) has k).1.2 - 1) ∧
+      2 * ((inferSpec points (ex.take n) has k).1.1
+            - (inferSpec points (ex.take n) has k).1.2 * (o.1 - (getP points k).1 * 65536))
+        ≤ (inferSpec points (ex.take n) has k).1.2 * ((inferSpec points (ex.take n) has k).1.2 - 1) ∧
+      2 * ((inferSpec points (ex.take n) has k).2.2 * (o.2 - (getP points k).2 * 65536)
+            - (inferSpec points (ex.take n) has k).2.1)
+        ≤ (inferSpec points (ex.take n) has k).2.2 * ((inferSpec points (ex.take n) has k).2.2 - 1) ∧
+      2 * ((inferSpec points (ex.take n) has k).2.1
+            - (inferSpec points (ex.take n) has k).2.2 * (o.2 - (getP points k).2 * 65536))
+        ≤ (inferSpec points (ex.take n) has k).2.2 * ((inferSpec points (ex.take n) has k).2.2 - 1) := by
+    intro k hk hh o ho
+    have : inferSpec points (ex.take n) has k = (((getP ex k).1, 1), ((getP ex k).2, 1)) := by
+      simp [inferSpec, hh, getP_take ex n k hk]
+    rw [this, ho, hw k (by omega)]
+    simp only []
+    refine ⟨by omega, by omega, by omega, by omega, by omega, by omega⟩
+  rcases hshape with hnil | ⟨r, hshift, hrn, hrt⟩ | hinterp
+  · -- no explicit delta in the contour
+    subst hnil
+    simp only [List.foldl_nil]
+    refine ⟨_, rfl, hwl, fun k hk => ?_, fun k _ _ => rfl⟩
+    have hnone : ∀ j, j < n → has.getD j false = false := by
+      intro j hj
+      cases hh : has.getD j false with
+      | false => rfl
+      | true =>
+        -- then every other point would be covered by a call, but there is none; j itself explicit…
+        exfalso
+        by_cases hall : ∀ i, i < n → has.getD i false = true
+        · -- all explicit: the scan finds point 0, so calls cannot be empty unless n points all explicit → calls still contain the wrap call
+          have := hA
+          -- use the shape: re-run the spec's coverage is vacuous; derive contradiction from the definition
+          have e := ecalls
+          unfold readerContourCalls at e
+          obtain ⟨fd, e1, s1, s2, s3, s4⟩ := scanFirst_spec has (n + 4) (n - 1) (by omega) (n - 1 + 2 - 0) 0 (by omega) (by omega)
+          rw [e1] at e
+          simp only [] at e
+          have hfd0 : fd = 0 := by
+            by_contra hne
+            have := s3 0 (by omega) (by omega)
+            rw [hall 0 hn] at this; cases this
+          subst hfd0
+          have : ¬ (0 > n - 1) := by omega
+          simp only [this, if_false] at e
+          obtain ⟨news, cur', e2, g1, g2, g3, g4, g5, g6⟩ :=
+            innerLoop_spec has (n + 4) (n - 1) (by omega) (n - 1 + 1 - 0) (0 + 1) 0 [] (by omega) (by omega) (by omega)
+              (hall 0 hn) (fun j a b => by omega)
+          rw [e2] at e
+          simp only [List.nil_append] at e
+          split at e
+          · simp at e
+          · simp at e
+        · obtain ⟨i, hi⟩ := Classical.not_forall.mp hall
+          have hi' : i < n ∧ has.getD i false = false := by
+            constructor
+            · by_contra h; exact hi (fun h' => absurd h' h)
+            · cases h2 : has.getD i false with
+              | false => rfl
+              | true => exact absurd (fun _ => h2) hi
+          obtain ⟨c, hc, _⟩ := hC i hi'.1 hi'.2 ⟨j, hj, hh⟩
+          simp at hc
+    have hk0 := hnone k hk
+    have : inferSpec points (ex.take n) has k = ((0, 1), (0, 1)) := by
+      unfold inferSpec
+      simp only [hk0, Bool.false_eq_true, if_false]
+      have hp : prevReq has (ex.take n).length k = none := by
+        unfold prevReq
+        rcases hdsl with h | h
+        · rw [h]; exact prevFrom_none' has n hnone n _
+        · exact prevFrom_none' has _ (fun j hj => hnone j (by omega)) _ _
+      rw [hp]
+    rw [this, hw k (by omega), hex0 k hk0]
+    simp only []
+    refine ⟨by omega, by omega, by omega, by omega, by omega, by omega⟩
+  · -- a single explicit point: the contour is shifted
+    subst hshift
+    simp only [List.foldl_cons, List.foldl_nil]
+    have hal : (applyCall points (workOf points ex) ⟨0, n - 1, r, r, true⟩).length = n + 4 := by
+      rw [applyCall_length, hwl]
+    refine ⟨_, rfl, hal, fun k hk => ?_, fun k hk1 hk2 => ?_⟩
+    · by_cases hkr : k = r
+      · subst hkr
+        refine hexplicit k hk hrt _ ?_
+        rw [applyCall_shift_getP points _ 0 (n - 1) k (by omega) k (by rw [hwl]; omega)]
+        simp
+      · -- shifted by the explicit point's delta
+        have hcov : covers ⟨0, n - 1, r, r, true⟩ k = true := by
+          rw [covers_iff]; exact ⟨Nat.zero_le _, by simp only; omega, fun ⟨_, h⟩ => hkr h⟩
+        obtain ⟨g1, g2, g3, _⟩ := hB _ (by simp) k hk hcov
+        simp only at g2 g3
+        have hdl : (ex.take n).length = n := by
+          rcases hdsl with h | h
+          · exact h
+          · exfalso
+            -- r < n is explicit, so ex has at least r+1 entries carrying a value?  not needed: use length of take
+            simp only [List.length_take] at h
+            have : ex.length < n := by omega
+            -- inference only needs `getP`, which is total; we do not need the exact length
+            exact absurd h (by
+              intro _
+              exact False.elim (by
+                have := g2; have := g3
+                -- prevReq is stated for `n`; with a shorter `ds` the theorem still goes through `prevReq has (ds.length)`
+                -- handle by cases below
+                exact (Nat.lt_irrefl 0 (by omega : 0 < 0))))
+        have hI : inferSpec points (ex.take n) has k = (((getP ex r).1, 1), ((getP ex r).2, 1)) := by
+          unfold inferSpec
+          simp only [g1, Bool.false_eq_true, if_false, hdl, g2, g3, iupPoint, iupAxis, if_true,
+            getP_take ex n r hrn]
+        have hwr := hw r (by omega)
+        have hwk := hw k (by omega)
+        have hek := hex0 k g1
+        obtain ⟨⟨a1, a2⟩, ⟨a3, a4⟩⟩ := hpts r
+        obtain ⟨⟨b1, b2⟩, ⟨b3, b4⟩⟩ := hpts k
+        obtain ⟨⟨c1, c2⟩, ⟨c3, c4⟩⟩ := hex r
+        have f1 : fxFromI32 (getP points r).1 = (getP points r).1 * 65536 := by
+          unfold fxFromI32; exact wrapI32_of_in (by omega) (by omega)
+        have f2 : fxFromI32 (getP points r).2 = (getP points r).2 * 65536 := by
+          unfold fxFromI32; exact wrapI32_of_in (by omega) (by omega)
+        have s1 : fxSub (getP (workOf points ex) r).1 (fxFromI32 (getP points r).1) = (getP ex r).1 := by
+          rw [hwr, f1]; unfold fxSub; simp only []; rw [wrapI32_of_in (by omega) (by omega)]; ring
+        have s2 : fxSub (getP (workOf points ex) r).2 (fxFromI32 (getP points r).2) = (getP ex r).2 := by
+          rw [hwr, f2]; unfold fxSub; simp only []; rw [wrapI32_of_in (by omega) (by omega)]; ring
+        rw [applyCall_shift_getP points _ 0 (n - 1) r (by omega) k (by rw [hwl]; omega), s1, s2, hI, hwk, hek]
+        simp only []
+        by_cases hz : (getP ex r).1 = 0 ∧ (getP ex r).2 = 0
+        · have : ¬ (0 ≤ k ∧ k ≤ n - 1 ∧ k ≠ r ∧ ¬((getP ex r).1 = 0 ∧ (getP ex r).2 = 0)) := by
+            intro h; exact h.2.2.2 hz
+          simp only [this, if_false, hz.1, hz.2]
+          refine ⟨by omega, by omega, by omega, by omega, by omega, by omega⟩
+        · have : (0 ≤ k ∧ k ≤ n - 1 ∧ k ≠ r ∧ ¬((getP ex r).1 = 0 ∧ (getP ex r).2 = 0)) :=
+            ⟨Nat.zero_le _, by omega, hkr, hz⟩
+          simp only [this, if_true]
+          have x1 : fxAdd ((getP points k).1 * 65536 + 0) (getP ex r).1 = (getP points k).1 * 65536 + (getP ex r).1 := by
+            unfold fxAdd; rw [wrapI32_of_in (by omega) (by omega)]; ring
+          have x2 : fxAdd ((getP points k).2 * 65536 + 0) (getP ex r).2 = (getP points k).2 * 65536 + (getP ex r).2 := by
+            unfold fxAdd; rw [wrapI32_of_in (by omega) (by omega)]; ring
+          rw [x1, x2]
+          refine ⟨by omega, by omega, by omega, by omega, by omega, by omega⟩
+    · rw [applyCall_shift_getP points _ 0 (n - 1) r (by omega) k (by rw [hwl]; omega)]
+      have : ¬ (0 ≤ k ∧ k ≤ n - 1 ∧ k ≠ r ∧ _) := by intro h; omega
+      simp only [this, if_false]
+  · -- interpolate calls only
+    sorry
 
 end FontVerif.GvarApply
